@@ -113,6 +113,12 @@ func genSQLCase(r *rand.Rand, no int) *sqlCase {
 		nOps = 1 + r.IntN(9)
 	}
 	c.Ops = genOps(r, nOps, c.AutoVac, true)
+	if c.Gens > 0 {
+		// make sure the captured WAL is a new generation on top of the base
+		// (a script whose steps all happen to be no-ops would otherwise leave
+		// the previous, already checkpointed generation in the file)
+		c.Ops = append([]op{{K: "ins", A: 1}}, c.Ops...)
+	}
 	c.Ending = "closed"
 	if r.IntN(100) < 12 {
 		c.Ending = "open_spill"
@@ -364,6 +370,10 @@ func (c *sqlCase) produce(dir string, r *rand.Rand) (base, walb []byte, err erro
 	if err != nil {
 		return nil, nil, err
 	}
+	var saltBefore [8]byte
+	if wb, err := os.ReadFile(path + "-wal"); err == nil && len(wb) >= walHdrSize {
+		copy(saltBefore[:], wb[16:24])
+	}
 	for _, o := range c.Ops {
 		if err := s.run(o); err != nil {
 			return nil, nil, fmt.Errorf("op %v: %w", o, err)
@@ -386,6 +396,9 @@ func (c *sqlCase) produce(dir string, r *rand.Rand) (base, walb []byte, err erro
 	}
 	if c.Ending == "open_spill" {
 		s.exec("ROLLBACK")
+	}
+	if c.Gens > 0 && len(walb) >= walHdrSize && string(walb[16:24]) == string(saltBefore[:]) {
+		return nil, nil, fmt.Errorf("script did not start a new WAL generation on top of the base")
 	}
 	return base, walb, nil
 }
